@@ -57,16 +57,17 @@ def parse_header(hdr):
     return struct.unpack('<IIIIII', hdr)
 
 
-def header_problems(hdr):
-    """Check a host header against protocol.txt; returns a list of strings (empty = fine)."""
+def header_problems(hdr, limit=None):
+    """Check a host header against protocol.txt; returns a list of strings (empty = fine).
+    limit: the largest payload the receiving device takes (its announced maxdata, at least 1 MiB)."""
     cmd, _, _, length, _, magic = parse_header(hdr)
     probs = []
     if cmd not in NAMES:
         probs.append('unknown command word 0x%08x' % cmd)
     if magic != (cmd ^ 0xFFFFFFFF):
         probs.append('magic 0x%08x != ~command 0x%08x' % (magic, cmd ^ 0xFFFFFFFF))
-    if length > HOST_MAXDATA:
-        probs.append('data_length %d exceeds 1 MiB' % length)
+    if length > max(HOST_MAXDATA, limit or 0):
+        probs.append('data_length %d exceeds %s' % (length, '1 MiB' if not limit or limit <= HOST_MAXDATA else 'the device\'s %d' % limit))
     return probs
 
 
